@@ -12,7 +12,7 @@ CHECKS = {
  "C01": ("rapid playouts + exhaustive 3-man table; set-equality differential against a reference rules implementation",
          "Legal-move SETS of the engine (generate, make, InCheck, undo) are compared with an independent mailbox/ray-walking implementation of the FIDE rules at every position of rapid-generated playouts from suite/bench/synthetic/motif roots (carried board and FEN-reloaded board with raw and normalised en-passant field), over the complete K+X v K table, and as perft(1..2) counts incl. the UCI perft command.",
          "Domain: valid positions as listed, halfmove clock 0..100.", "DESIGN.md section 5 C01"),
- "C02": ("rapid playouts; field-by-field differential of every successor against the reference rules, incl. en-passant capturability; UCI position/fen round trip",
+ "C02": ("rapid playouts; field-by-field differential of every successor against the reference rules, incl. en-passant capturability; UCI position/fen round trip incl. sessions of several position commands and whole games of 850+ plies in one command line",
          "At every position of generated playouts (roots incl. constructed en-passant parents: capturer pinned, horizontal pin, push discovering check through the origin square) EVERY legal move is made and the successor compared with the reference successor in placement, side, rights, en-passant target (iff a legal en-passant capture exists), both counters and FEN text; chains are kept; the same through `position ... moves ...` + `fen`.",
          "Oracle for en-passant capturability: reference legal-move generation.", "DESIGN.md section 5 C02"),
  "C03": ("rapid nested make/undo paths and exhaustive shallow trees; deep-snapshot round-trip invariant",
@@ -49,7 +49,7 @@ CHECKS = {
          "In-process driver on pipes: each go answered by exactly one bestmove after its info lines, readyok k never before isready k and totals equal, no torn line, Run returns after quit/EOF with no driver goroutine left, no panic, no race report. The harness owns WHEN commands arrive relative to the search (before start, after j info lines, coincident with the finish signal, after bestmove).",
          "Go scheduler interleavings inside the driver are sampled (repetition, GOMAXPROCS 1/2/4/16, race detector), not enumerated.", "DESIGN.md section 5 C13"),
  "C14": ("exhaustive boundary grid + rapid random clocks; inequality oracle; driver leg with recording / blocking mock search",
-         "hard > 0, hard <= remaining, margin kept when more than the margin remains, movetime => soft == hard == movetime, opponent's clock irrelevant; the driver passes the computed soft time and the hard deadline fires.",
+         "hard > 0, hard <= remaining, margin kept when more than the margin remains, movetime => soft == hard == movetime, opponent's clock irrelevant; the driver passes the computed soft time and the hard deadline fires within the remaining time (+2 s timer slack), also in sessions that have answered earlier go commands (move time, clocks, depth, nodes) on the same driver.",
          "Hook uci.VerifTimeLimits.", "DESIGN.md section 5 C14"),
  "C15": ("model-based stateful generation (store/probe/clear/resize/new-search) against a map model with free victim choice; direct lane-matcher differential",
          "After every store all modelled slots of the bucket are probed: hits equal the model (mate values re-based), at most one other slot vanished, the stored slot hits (keep-deeper refusal honoured), unmodelled non-zero signatures miss; zero signatures judged only by the clauses the property keeps.",
@@ -67,7 +67,7 @@ CHECKS = {
          "|float eval - int eval| < 2.25 (white relative) on generated positions loaded without hash; SetVector/ToVector/TunedParams/NullVector address the same coefficient at the same index for every drawn target subset; EngineCoeffs == eval.Coefficients.",
          "tuning/epd/checksum copied unchanged into a scratch module (other tuner deps unavailable offline).", "DESIGN.md section 5 C19"),
  "C20": ("exhaustive n-range permutation/partition checks + rapid generated files read end to end through the chunker",
-         "shuffleIndex is a permutation for every n up to the stated bound and sampled large n, many epochs; Batches/Chunks partition; generated files (blank lines, long lines, >32 MiB) deliver every non-blank line exactly once over all chunks and over arbitrary sub-ranges.",
+         "shuffleIndex is a permutation for every n up to the stated bound and sampled large n, many epochs; Batches/Chunks partition; generated files (blank lines, long lines, >32 MiB) deliver every non-blank line exactly once over all chunks and over arbitrary sub-ranges, read one after the other and from up to four chunks of one Chunker open at once and read in generated turns.",
          "Files in the documented format (newline-terminated, lines < 4 KiB).", "DESIGN.md section 5 C20"),
 }
 
